@@ -658,11 +658,11 @@ pub(crate) fn t_p_exec() {
     let st = p.state;
     let c = any_char();
     let got = p.execute(c);
+    if ref_exec(c).is_none() {
+        assert!(got.is_none(), "[C20][C03] unassigned C0/C1 controls are consumed without effect");
+    }
     assert!(got == ref_exec(c), "[C03] each C0/C1 control yields its function, unassigned ones nothing");
     assert!(p.state == st, "[C03] executing a control does not change the state by itself");
-    if ref_exec(c).is_none() {
-        assert!(got.is_none(), "[C20] unassigned C0/C1 controls are consumed without effect");
-    }
     kv_cover!(got == Some(Function::Ri), "RI");
     kv_end!();
 }
@@ -673,11 +673,11 @@ pub(crate) fn t_p_esc() {
     let im = p.intermediate;
     let got = p.esc_dispatch(c);
     let want = ref_esc(im, c);
-    assert!(got == want, "[C03] each implemented ESC final yields its function");
-    assert!(p.state == State::Ground, "[C03] an ESC sequence ends in ground state");
     if want.is_none() {
-        assert!(got.is_none(), "[C20] unimplemented ESC sequences are consumed without effect");
+        assert!(got.is_none(), "[C20][C03] unimplemented ESC sequences are consumed without effect");
     }
+    assert!(got == want, "[C03] each implemented ESC final yields its function");
+    assert!(p.state == State::Ground, "[C03][C20] an ESC sequence ends in ground state");
     if im.is_none() && (0x40..=0x5f).contains(&(c as u32)) {
         let c1 = unsafe { char::from_u32_unchecked(c as u32 + 0x40) };
         assert!(got == ref_exec(c1), "[C03] 7-bit ESC Fe acts exactly like its 8-bit C1 counterpart");
@@ -697,11 +697,11 @@ pub(crate) fn t_p_csi_scalar(cur_param: usize) {
     let (p0, p1, p2) = (p.params[0].parts[0], p.params[1].parts[0], p.params[2].parts[0]);
     let got = p.csi_dispatch(c);
     let want = ref_csi_scalar(im, p0, p1, p2, c);
-    assert!(got == want, "[C03] each implemented CSI final yields its function with the parameters as written");
     if want.is_none() {
-        assert!(got.is_none(), "[C20] CSI sequences with unimplemented finals, private markers or intermediates are consumed without effect");
+        assert!(got.is_none(), "[C20][C03] CSI sequences with unimplemented finals, private markers or intermediates are consumed without effect");
     }
-    assert!(p.state == State::Ground && p.cur_param == cur_param, "[C03] dispatch leaves the parser in ground state");
+    assert!(got == want, "[C03] each implemented CSI final yields its function with the parameters as written");
+    assert!(p.state == State::Ground && p.cur_param == cur_param, "[C03][C20] dispatch leaves the parser in ground state");
     kv_cover!(matches!(got, Some(Function::Cup(65535, 0))), "CUP 65535;0");
     kv_cover!(matches!(got, Some(Function::Xtwinops(_))), "XTWINOPS 8");
     kv_cover!(got == Some(Function::Decstr), "DECSTR");
